@@ -133,6 +133,15 @@ def statements(body):
     return out
 
 
+def find_callees(txt):
+    out = set()
+    for m in re.finditer(r'([A-Za-z_][\w:\.\->]*)\s*\(', txt):
+        pre = txt[:m.start()].rstrip()
+        chained = pre.endswith('.') or pre.endswith('->') or pre.endswith('::')
+        out.add(('.' if chained else '') + m.group(1))
+    return out
+
+
 def analyse_loop(header_m, body, clauses, private=()):
     ovar = header_m.group(1)
     if header_m.group(3) != ovar or (header_m.group(5) or header_m.group(6)) != ovar:
@@ -176,11 +185,9 @@ def analyse_loop(header_m, body, clauses, private=()):
         s1 = re.sub(r'^\s*(?:else\s+)?', '', s)
         if DECL_RE.match(s1) or s1.startswith('IFCOND') or s1.startswith('assert') or s1.startswith('return') \
                 or s1.startswith('#') or s1 in ('else', 'do', 'while (0)', 'continue', 'break'):
-            for c in re.findall(r'([A-Za-z_][\w:\.\->]*)\s*\(', s1):
-                callees.add(c)
+            callees |= find_callees(s1)
             continue
-        for c in re.findall(r'([A-Za-z_][\w:\.\->]*)\s*\(', s1):
-            callees.add(c)
+        callees |= find_callees(s1)
         m = re.match(r'^(.*?[^=!<>+\-*/&|^])\s*(=|\+=|-=|\*=|/=)(?!=)\s*(.*)$', s1, re.S)
         if m:
             lhs = m.group(1).strip()
@@ -206,6 +213,12 @@ def analyse_loop(header_m, body, clauses, private=()):
         if re.match(r'^[A-Za-z_][\w:\.\->]*\s*\(.*\)$', s1, re.S):
             continue   # a call statement: writes only through its arguments (locals); recorded in callees
         raise TranslateError('statement outside the grammar: %r' % s1[:80])
+
+    # a bare call (no object, no namespace) of anything but a known pure function has unknown memory effects
+    pure = {'IFCOND', 'assert', 'sin', 'cos', 'fabs', 'sqrt', 'pow', 'equals', 'compute_jacobian_elements', 'static_cast', 'T'}
+    for c in callees:
+        if not re.search(r'\.|->|::', c) and c not in pure and c not in local:
+            raise TranslateError('call of %s inside a work-shared loop: its memory effects are not visible to this translator' % c)
 
     def slot(e):
         e = e.strip()
